@@ -181,11 +181,17 @@ def generate(template_path, repo):
                 elif t.startswith('//@loop'):
                     mode = ('loop', int(t.split()[1]))
                     loops[mode[1]] = []
+                elif t.startswith('//@replace_alt'):
+                    # alternative source form for the PREVIOUS replace rule (tried when that one does not match)
+                    m = re.match(r'//@replace_alt\s+(\d+)\s*::\s*(.*?)\s*==>\s*(.*)$', t)
+                    if not m or not replaces:
+                        raise AnchorLost('bad replace_alt directive: ' + t)
+                    replaces[-1][3].append((int(m.group(1)), m.group(2), m.group(3)))
                 elif t.startswith('//@replace'):
                     m = re.match(r'//@replace\s+(\d+)\s*::\s*(.*?)\s*==>\s*(.*)$', t)
                     if not m:
                         raise AnchorLost('bad replace directive: ' + t)
-                    replaces.append((int(m.group(1)), m.group(2), m.group(3)))
+                    replaces.append((int(m.group(1)), m.group(2), m.group(3), []))
                 elif t.startswith('//@attr'):
                     attrs.append(t[len('//@attr'):].strip())
                 elif t.startswith('//@proof'):
@@ -227,7 +233,7 @@ def _emit_struct(g, src, args, replaces, attrs=()):
     text = src.text[a:b]
     where = '%s %s (%s)' % (kind, args['name'], args['file'])
     text = extract.strip_vis(text)
-    for cnt, old, new in replaces:
+    for cnt, old, new, _alts in replaces:
         text = apply_replace(text, cnt, old, new, g.rewrites, where)
     g.emit('// ---- extracted %s:%d %s %s sha=%s ----' % (args['file'], extract._line_of(src.text, a), kind, args['name'], extract.sha(src.text[a:b])))
     for at in attrs:
@@ -248,10 +254,22 @@ def _emit_fn(g, src, args, spec, loops, replaces, proofs=(), attrs=()):
     before, wh = extract.split_where(header)
     if args.get('where') == 'drop':
         wh = ''
-    for cnt, old, new in replaces:
+    for cnt, old, new, alts in replaces:
         # rules apply to header+body as one text, split back at the marker
         joined = before + '\x00' + wh + '\x01' + body
-        joined = apply_replace(joined, cnt, old, new, g.rewrites, where)
+        try:
+            joined = apply_replace(joined, cnt, old, new, g.rewrites, where)
+        except AnchorLost:
+            done = False
+            for acnt, aold, anew in alts:
+                try:
+                    joined = apply_replace(joined, acnt, aold, anew, g.rewrites, where + ' [alternative form]')
+                    done = True
+                    break
+                except AnchorLost:
+                    continue
+            if not done:
+                raise
         before, rest = joined.split('\x00')
         wh, body = rest.split('\x01')
     # ghost-only insertions (proof blocks are erased by Verus: executable text unchanged)
